@@ -1,9 +1,10 @@
 (** C16 — the reflective unmarshaler assigns every input key to exactly one
     destination (struct level: tag / lower-cased name / first present alias /
-    inline catch-all).  Agreement with the YAML library's own decoder on
-    alias-free targets is Props/C16b.v. *)
+    inline catch-all), and on alias-free targets and well-typed documents the
+    whole recursive decoder agrees with the structural reference decoder (the
+    YAML library's own decoding). *)
 From Coq Require Import String List Ascii Bool Arith Permutation ZArith.
-From GP Require Import Model.Gv Model.Decode Gen.Structs Proofs.DecodeProofs.
+From GP Require Import Model.Gv Model.Decode Model.Reflect Gen.Structs Gen.TestStructs Proofs.DecodeProofs Proofs.ReflectProofs.
 Import ListNotations.
 Local Open Scope string_scope.
 Local Open Scope list_scope.
@@ -64,6 +65,30 @@ Theorem library_structs_disjoint :
   keys_disjoint struct_Signature.
 Proof. exact DecodeProofs.library_structs_disjoint. Qed.
 
+(** AGREEMENT WITH THE LIBRARY DECODER: for every family of struct descriptors without aliases, with
+    pairwise distinct keys and field names, at most one inline field per struct, and by-value struct
+    nesting below [zf], and for every target type and every document well-typed for it (any depth,
+    any size), the generic decoder run on the zero value succeeds and yields exactly what the
+    structural reference decoder yields *)
+Theorem unm_agrees_ref : forall structs zf,
+  alias_free structs -> keys_ok structs -> one_inline structs -> zero_closed structs zf ->
+  forall fuel t g, well_typed structs fuel t g = true ->
+    unm structs zf fuel t g (zero structs zf t) = UOk (ref structs zf fuel t g).
+Proof. exact ReflectProofs.unm_agrees_ref. Qed.
+Theorem unm_total_on_well_typed : forall structs zf,
+  alias_free structs -> keys_ok structs -> one_inline structs -> zero_closed structs zf ->
+  forall fuel t g, well_typed structs fuel t g = true ->
+    unm structs zf fuel t g (zero structs zf t) <> UErr.
+Proof. exact ReflectProofs.unm_total_on_well_typed. Qed.
+(** the hypotheses hold of the alias-free part of the type family the harness decodes into
+    (regenerated from harness/cmd/run/c16types.go by the translator) *)
+Theorem family_unm_agrees_ref : forall zf fuel t g, 2 <= zf ->
+  well_typed plain_family fuel t g = true ->
+  unm plain_family zf fuel t g (zero plain_family zf t) = UOk (ref plain_family zf fuel t g).
+Proof. exact ReflectProofs.family_unm_agrees_ref. Qed.
+(** non-vacuity and necessity of the nesting bound: ReflectProofs.well_typed_example,
+    well_typed_inline_example, zero_closed_needed (vm_compute) *)
+
 Print Assumptions partition_exact.
 Print Assumptions match_rule.
 Print Assumptions assigned_complete.
@@ -73,3 +98,6 @@ Print Assumptions leftover_spec.
 Print Assumptions unknown_key_leftover.
 Print Assumptions skipped_never_assigned.
 Print Assumptions library_structs_disjoint.
+Print Assumptions unm_agrees_ref.
+Print Assumptions unm_total_on_well_typed.
+Print Assumptions family_unm_agrees_ref.
